@@ -80,7 +80,7 @@ func unhex(s string) []byte {
 // targetCases: destinations.
 func (h *H) targetCases() {
 	r := h.r
-	nRand := r.Pick(60, 2500)
+	nRand := r.Pick(300, 2500)
 	for pi := range portEdges {
 		pi := pi
 		port := portEdges[pi]
@@ -188,7 +188,7 @@ func (h *H) argsCases() {
 		r.Sample(map[string]any{"kind": "known argument strings", "n": len(knownArgStrings), "example": knownArgStrings[0]})
 	})
 
-	nPer := r.Pick(400, 25000)
+	nPer := r.Pick(2000, 30000)
 	for b := 0; b < 16; b++ {
 		b := b
 		r.Bubble(fmt.Sprintf("args/prng/%02d", b), func(c *mon.Case) {
@@ -246,7 +246,7 @@ func (h *H) argsCases() {
 	// the one representational ambiguity, exercised on purpose
 	r.Bubble("args/ambig-nul-password", func(c *mon.Case) {
 		rng := mon.NewRand(r.Sub("ambig"))
-		for i := 0; i < r.Pick(200, 5000); i++ {
+		for i := 0; i < r.Pick(1000, 5000); i++ {
 			L := 3 + rng.IntN(253)
 			pairs, enc := genEncoded(rng, L, i%2 == 0)
 			last := &pairs[len(pairs)-1]
@@ -261,7 +261,7 @@ func (h *H) argsCases() {
 
 	// differential: every string over a 5-symbol alphabet up to a length bound
 	alpha := []byte{'\\', ';', '=', 'a', 'b'}
-	maxLen := r.Pick(6, 8)
+	maxLen := r.Pick(7, 8)
 	for p := 0; p < 25; p++ {
 		p := p
 		r.Bubble(fmt.Sprintf("args/diff/%02d", p), func(c *mon.Case) {
@@ -350,7 +350,7 @@ func (h *H) methodCases() {
 		for _, m := range lists {
 			h.eval(c, h.dress(mk("methods/list", m), rng))
 		}
-		for i := 0; i < r.Pick(300, 20000); i++ {
+		for i := 0; i < r.Pick(2000, 20000); i++ {
 			n := rng.IntN(256)
 			if rng.IntN(2) == 0 {
 				n = rng.IntN(6)
